@@ -99,12 +99,13 @@ def check_case(ctx, case, stats, samples):
     hyp = w.is_partial_order() and hasm_inherited(w)
     stats["worlds"] += 1
     stats["worlds_hyp"] += int(hyp)
+    broken = False
     for i in range(n):
         for j in range(n):
             stats["evaluations"] += 1
-            if subs[i][j] != msub[i][j]:
+            if subs[i][j] != msub[i][j] and not broken:
                 ctx.violation(f"subclasscheck: implementation {subs[i][j]} != model {msub[i][j]}", L.pair_case(case, i, j), kind="correspondence")
-                return
+                broken = True      # the tie is broken for this world: the oracles below still question the implementation's own answers
             if isinstance(subs[i][j], list):
                 ctx.violation("subclasscheck raised", L.pair_case(case, i, j))
     idx = {json.dumps(e): k for k, e in enumerate(encs)}
@@ -120,7 +121,7 @@ def check_case(ctx, case, stats, samples):
             stats["nontrivial"].add(hash(json.dumps([case["spec"], e, c])) if e[0] != 0 else 0)
             if got != int(exp):
                 ctx.violation(f"subclasscheck(class {c}, T) = {got} but T's documented meaning gives {exp}", {"spec": case["spec"], "preds": case["preds"], "types": [[0, c], e]})
-            if bool(mden[i][1][c]) != exp and hyp:
+            if bool(mden[i][1][c]) != exp and hyp and not broken:
                 ctx.violation(f"model denot disagrees with the harness's reading of the documentation for class {c}", {"spec": case["spec"], "preds": case["preds"], "types": [[0, c], e]}, kind="spec")
     # (e) generic covariance, from the implementation's own matrix
     for i, a in enumerate(encs):
